@@ -20,6 +20,16 @@ CHECKS = {
         text="At quiescence of an all-honest run the multiset of hand-overs must equal the script (every broadcast once at every other party, every point-to-point message once at its addressee); a flagged equivocation shows up as a missing later hand-over because all rounds are in flight together. N=2..5(6), several concurrent senders, 1..3 rounds, acknowledgements overtaking payloads counted.",
         note="Trusted: harness recorder and network; sleep-set independence (deliveries at different receivers commute) relies on parties sharing no state.",
         design="2/C04"),
+    "C14": dict(level="exploration", engine="hcore",
+        technique="runtime monitoring under a controlled scheduler: the real msg.Box parks at verif yield points (lock boundaries and shared-state accesses), interleavings of concurrent receive/Send calls enumerated by stateless DFS and PRNG schedules; exactly-once/in-order oracle on the handler log; plus a stress arm with real goroutines",
+        text="One controlled thread runs at a time; threads waiting for a lock are recognised by their goroutine wait state, so yield points may lie inside critical sections and a shrunk critical section creates new interleavings instead of hiding them. Eleven configurations of concurrent receives and (repeated) first Sends on one or two topics; two enumerated completely in the quick tier, the others up to a bound and then sampled. Oracle at quiescence: every message received for a topic whose Send completed was handed to the dispatcher exactly once, per-sender order = arrival order.",
+        note="Trusted: the hook placement (interleavings are explored at the granularity of the verif yield points of msg/msgbox.go), the harness handler; expiry disabled. Real-scheduler interleavings are covered only by the stress arm.",
+        design="2/C14"),
+    "C15": dict(level="exploration", engine="hcore",
+        technique="runtime monitoring against a reference model written from the statement: generated histories (bursts, topic churn, virtual epoch ticks, idle periods, GC-driving sends) on the real msg.Box with small injected limits; racing first-Send schedules replayed under the controlled scheduler followed by a throttle probe",
+        text="The model predicts for every buffered message must-deliver / must-not-deliver / either (bands: limit..limit+1, expired-but-not-yet-swept) and is compared with what each Send releases; a panic on excess traffic kills the child and is reported by the parent. Virtual epoch clock (hand-made ticker) makes expiry deterministic; three real-clock histories cover the real ticker. A second unit replays each interleaving of {buffered; receive || first Send} on three topics and then demands that the sender is still served.",
+        note="Trusted: the reference model (from the statement, not from the code); per-topic limit constant 100 as documented in msgbox.go; expiry judged only after three GC opportunities spaced by more than the expiry.",
+        design="2/C15"),
 }
 
 NOT_YET = {}
